@@ -178,6 +178,8 @@ def run(tier, seed):
             dist["depth>=2"] += int(depth >= 2)
         x = distgen.interior_point(rnd, node)
         probs, mis, grad = spec_checks(node, x, rnd)
+        if hasattr(node.obj, "misfit"):
+            probs = list(probs) + distgen.inplace_consistency(rnd, node.obj, numpy.array(x, dtype=float).reshape(-1, 1), node.desc)
         for key, what in probs:
             violations.append(Violation(key, what, {"desc": node.desc, "point": x, "index": i}))
         if mis is None or not math.isfinite(mis):
